@@ -5,8 +5,9 @@
 
     * `digestPE pg`   lib/authenticode/pedigest.go   DigestPE, readDosHeader, readCoffHeader, readOptHeader, readSections,
                       imageHasher.section (page by page with io.ReadFull when page hashes are wanted), readTrailer
-    * `digestCab`     lib/cabfile/cabfile.go         Digest (binary.Read ×3 + per folder, io.ReadFull ×2, io.CopyN, and the
-                      one-byte `r.Read` that looks for trailing garbage)
+    * `digestCab`     lib/cabfile/cabfile.go         Digest (binary.Read ×3 + per folder, io.ReadFull ×2, io.CopyN, and the final
+                      io.Copy(io.Discard, r) that looks for trailing garbage; `digestCabOrig` = the code before fix F-rd-cab-tail,
+                      which probed with a one-byte `r.Read`)
     * `digestPS`      lib/authenticode/powershell.go DigestPowershell, detectUtf16 (Peek), readLine (ReadString / ReadByte
                       pairs), io.Copy(io.Discard, br)
 
@@ -252,25 +253,26 @@ def cabBody {α} (k : Cab.Digest → Prog α) : Prog α :=
   if u16 h 30 / 4 % 2 = 1 then cabReserve (u32 h 8) fun rv => cabRest h rv k
   else cabRest h noReserve k
 
-/-- `if _, err := r.Read(make([]byte, 1)); err == nil { trailing garbage } else if err != io.EOF { return err }` -/
-def cabTail (d : Cab.Digest) : Prog Cab.Digest :=
+/-- the end of `cabfile.Digest` BEFORE fix F-rd-cab-tail:
+    `if _, err := r.Read(make([]byte, 1)); err == nil { trailing garbage } else if err != io.EOF { return err }` -/
+def cabTailOrig (d : Cab.Digest) : Prog Cab.Digest :=
   .probe fun e =>
     match e with
     | none => failE "trailing"
     | some .eof => .ret d
     | some (.fail x) => failE ("read:" ++ x)
 
-def digestCab : Prog Cab.Digest := cabBody cabTail
+def digestCabOrig : Prog Cab.Digest := cabBody cabTailOrig
 
-/-- the end of `cabfile.Digest` with patches/cab-trailing-probe.patch applied:
+/-- the end of `cabfile.Digest` (fix F-rd-cab-tail):
     `if n, err := io.Copy(io.Discard, r); err != nil { return err } else if n > 0 { trailing garbage }` -/
-def cabTailFixed (d : Cab.Digest) : Prog Cab.Digest :=
+def cabTail (d : Cab.Digest) : Prog Cab.Digest :=
   .copy none schedDiscard fun b e =>
     match e with
     | .src (.fail x) => failE ("read:" ++ x)
     | _ => if 0 < b.length then failE "trailing" else .ret d
 
-def digestCabFixed : Prog Cab.Digest := cabBody cabTailFixed
+def digestCab : Prog Cab.Digest := cabBody cabTail
 
 /-! ## PowerShell: `authenticode.DigestPowershell` -/
 
@@ -425,34 +427,55 @@ def tarShort : Term → Fail
   | .eof => .err "tar:unexpected-eof"
   | .fail x => .err ("read:" ++ x)
 
-/-- `tr.Next()` -/
-def tarNext {α} (st : TarSt) (k : TarNext → Prog α) : Prog α :=
+inductive TarNextE where
+  | hdr (h : TarHdr) (st : TarSt)
+  /-- `io.EOF`: clean end of archive -/
+  | eof
+  /-- any other error of `tr.Next()`, by class -/
+  | err (e : String)
+  deriving Repr, DecidableEq
+
+/-- class of a short read inside the tar layer -/
+def tarShortS : Term → String
+  | .eof => "tar:unexpected-eof"
+  | .fail x => "read:" ++ x
+
+/-- `tr.Next()` with its error as a value (`zipTarReader.Read` looks at it) -/
+def tarNextE {α} (st : TarSt) (k : TarNextE → Prog α) : Prog α :=
   -- discard the rest of the member; `io.CopyN` reports io.EOF on a short skip, `discard` turns it into ErrUnexpectedEOF
   -- (a count of 0 reads nothing: `LimitedReader.N = 0`)
   .copy (some st.nb) schedDiscard fun _ e0 =>
   match e0 with
-  | .src t => .fail (tarShort t)
+  | .src t => k (.err (tarShortS t))
   | .limit =>
   -- tryReadFull(tr.blk[:tr.pad]): io.EOF when the padding is cut short
   .readFull st.pad fun rp =>
     match rp with
     | .short _ .eof => k .eof
-    | .short _ (.fail x) => failE ("read:" ++ x)
+    | .short _ (.fail x) => k (.err ("read:" ++ x))
     | .ok _ =>
       .readFull 512 fun rb =>
         match rb with
         | .short [] .eof => k .eof
-        | .short _ t => .fail (tarShort t)
+        | .short _ t => k (.err (tarShortS t))
         | .ok blk =>
           if blk.all (· = 0) then
             .readFull 512 fun rb2 =>
               match rb2 with
               | .short [] .eof => k .eof
-              | .short _ t => .fail (tarShort t)
-              | .ok blk2 => if blk2.all (· = 0) then k .eof else failE "tar:header"
+              | .short _ t => k (.err (tarShortS t))
+              | .ok blk2 => if blk2.all (· = 0) then k .eof else k (.err "tar:header")
           else
             let h := tarParse blk
             k (.hdr h ⟨h.size, (512 - h.size % 512) % 512⟩)
+
+/-- `tr.Next()` where every error ends the digester -/
+def tarNext {α} (st : TarSt) (k : TarNext → Prog α) : Prog α :=
+  tarNextE st fun r =>
+    match r with
+    | .hdr h st' => k (.hdr h st')
+    | .eof => k .eof
+    | .err e => failE e
 
 /-- `io.Copy(w, tr)` / `ioutil.ReadAll(tr)` / `io.CopyN(w, tr, n)` on the member reader: at most `lim` bytes (none =
     the whole rest of the member); returns the bytes and the state -/
@@ -530,6 +553,108 @@ def msiIsSig (n : Bytes) : Bool :=
 
 def digestMsiTar (extended : Bool) (fuel : Nat) : Prog Unit :=
   msiLoop extended msiIsSig msiExmeta fuel ⟨0, 0⟩
+
+/-! ## ZIP inside the tar framing: `zipslicer.ReadZipTar` = tar + `zipTarReader` + `streamReaderAt`  (JAR, APK, APPX, VSIX)
+
+  `ReadZipTar` reads the member `zipdir.bin` (`ioutil.ReadAll(tr)`), advances to `contents.zip`, and hands
+  `&streamReaderAt{r: &zipTarReader{tr}}` to the ZIP reader.  `zipTarReader.Read` is `tr.Read` (the source's `Read` limited
+  to the member; io.EOF comes WITH the member's last byte) and, on that io.EOF, one `tr.Next()` to make sure nothing follows
+  ("invalid tarzip").  `streamReaderAt.ReadAt(d, p)` is `io.CopyN(Discard, …, p-pos)` (pos is not advanced when the skip
+  fails) then `io.ReadFull`.  `ZClient` is any consumer that sees the stream through these `ReadAt`s only; `ZAns` is what a
+  `ReadAt` returns. -/
+
+inductive ZAns where
+  | ok (b : Bytes)
+  /-- `p < r.pos` -/
+  | backwards
+  /-- the skip failed: `0, err` -/
+  | skipErr (e : String)
+  /-- `io.ReadFull` came up short: the bytes read and the error class -/
+  | short (got : Bytes) (e : String)
+  deriving Repr, DecidableEq
+
+inductive ZClient (α : Type) where
+  | done (a : α)
+  | fail (e : String)
+  | readAt (len off : Nat) (k : ZAns → ZClient α)
+
+/-- `tr.curr.nb`, `tr.pad`, `z.tr == nil`, `streamReaderAt.pos` -/
+structure ZSt where
+  nb : Nat
+  pad : Nat
+  done : Bool
+  pos : Nat
+  deriving Repr, DecidableEq
+
+/-- `zipTarReader.Read` saw io.EOF from the member: `tr.Next()` must report io.EOF -/
+def zEnd {α} (st : ZSt) (k : String → Prog α) : Prog α :=
+  tarNextE ⟨0, st.pad⟩ fun r =>
+    match r with
+    | .eof => k "eof"
+    | .hdr _ _ => k "invalid-tarzip"
+    | .err e => k e
+
+/-- `io.CopyN(ioutil.Discard, r.r, n)` over `zipTarReader`; `none` = success -/
+def zSkip {α} (n : Nat) (st : ZSt) (k : Option String → ZSt → Prog α) : Prog α :=
+  if n = 0 then k none st
+  else if st.done then k (some "eof") st
+  else if st.nb = 0 then zEnd st fun e => k (some e) { st with done := true }
+  else
+    .copy (some (min n st.nb)) schedDiscard fun b e =>
+      match e with
+      | .src t => k (some (tarShortS t)) { st with nb := st.nb - b.length }
+      | .limit =>
+        if b.length < st.nb then k none { st with nb := st.nb - b.length, pos := st.pos + n }
+        else
+          -- the member's last byte came with io.EOF: `tr.Next()` runs now; `io.CopyN` drops the error when it has its count
+          zEnd st fun e =>
+            if n ≤ st.nb then k none { st with nb := 0, done := true, pos := st.pos + n }
+            else k (some e) { st with nb := 0, done := true }
+
+/-- `io.ReadFull(r.r, d)` over `zipTarReader`, `len(d) = len` -/
+def zRead {α} (len : Nat) (st : ZSt) (k : ZAns → ZSt → Prog α) : Prog α :=
+  if len = 0 then k (.ok []) st
+  else if st.done then k (.short [] "eof") st
+  else if st.nb = 0 then zEnd st fun e => k (.short [] e) { st with done := true }
+  else
+    .readFull (min len st.nb) fun r =>
+      match r with
+      | .short got t => k (.short got (tarShortS t)) { st with nb := st.nb - got.length, pos := st.pos + got.length }
+      | .ok b =>
+        if b.length < st.nb then k (.ok b) { st with nb := st.nb - b.length, pos := st.pos + b.length }
+        else
+          zEnd st fun e =>
+            if len ≤ st.nb then k (.ok b) { st with nb := 0, done := true, pos := st.pos + b.length }
+            else k (.short b (if e = "eof" then "tar:unexpected-eof" else e)) { st with nb := 0, done := true, pos := st.pos + b.length }
+
+/-- a ZIP consumer run against the tar-framed stream -/
+def zipTarClient {α} : ZClient α → ZSt → Prog α
+  | .done a, _ => .ret a
+  | .fail e, _ => failE e
+  | .readAt len off k, st =>
+    if off < st.pos then zipTarClient (k .backwards) st
+    else
+      zSkip (off - st.pos) st fun se st1 =>
+        match se with
+        | some e => zipTarClient (k (.skipErr e)) st1
+        | none => zRead len st1 fun ans st2 => zipTarClient (k ans) st2
+
+/-- `zipslicer.ReadZipTar(r)` followed by a consumer that gets the directory blob and the size of the zip -/
+def readZipTar {α} (mk : Bytes → Nat → ZClient α) : Prog α :=
+  tarNextE ⟨0, 0⟩ fun r1 =>
+    match r1 with
+    | .eof => failE "eof"
+    | .err e => failE e
+    | .hdr h1 st1 =>
+      if h1.name ≠ zipdirName then failE "invalid-tarzip" else
+      tarCopy st1 none schedReadAll fun cd _ st2 =>
+      tarNextE st2 fun r2 =>
+        match r2 with
+        | .eof => failE "eof"
+        | .err e => failE e
+        | .hdr h2 st3 =>
+          if h2.name ≠ contentsName then failE "invalid-tarzip" else
+          zipTarClient (mk cd h2.size) ⟨st3.nb, st3.pad, false, 0⟩
 
 /-! ## Mach-O / DMG code pages: `csblob.hashPages` (4096-byte pages with `io.ReadFull`, a short last page) -/
 
